@@ -287,7 +287,10 @@ def _r12e(cx, mk_line):
             return "UNKNOWN"
         return None
     spec = {("q0", "SEP"): "s1", ("s1", "CELL"): "c1", ("s1", "SEP"): "end0", ("c1", "SEP"): "s2", ("s2", "CELL"): "c1"}
-    res = events.check(mk_line, classify, spec, "q0", {"s2", "end0"})
+    res = events.check(mk_line, classify, spec, "q0", {"s2", "end0"}, known_tests=events.reference_tests(mk_line))
+    if not res.violations and res.uncertain:
+        # only along paths through a test on state the event engine does not track: a loss of precision, not a finding
+        raise AnalysisError("R12e", f"{REL}::_make_table_line", f"row language not decided: the only irregular paths go through a test on untracked state (line {res.uncertain[0][1][-1] if res.uncertain[0][1] else '?'}: {res.uncertain[0][0][:60]})")
     cx.counts["R12e:product states"] = res.states
     if not res.violations:
         cx.ob("R12e", mk_line, True, f"row = SEP CELL (SEP CELL)* SEP on every path ({res.states} product states)", stmt="row language")
